@@ -405,6 +405,138 @@ def ids_and_copies(n: int, k: int) -> bool:
 
 
 # ------------------------------------------------------------------------------------------------
+# requesting several associations at once: two live requesters of ONE entity, interleaved
+# ------------------------------------------------------------------------------------------------
+
+def _requester_run(which, sched, b_rejects, ta, tb):
+    """two requested associations of one ClientAE (both alive at the same time), steps interleaved by sched; which:
+    'both' / 'a' / 'b'.  -> per association (proposal octets, usable contexts, service look-ups, echo exchange)"""
+    from vt import sim
+    from vt.harness import live as L
+    from pynetdicom2 import applicationentity as AEm
+    L.install(sim.SimClock(1000))
+    ae = AEm.ClientAE('LOCAL', TS, 16384)
+
+    def svc_a(asce, ctx, *a):
+        return ('svc', str(ctx.sop_class), ctx.id, str(ctx.supported_ts))
+    ae.add_scu(svc_a, [CT, MR])
+    ae.add_scu(sopclass.verification_scu)
+
+    def peer(ts_index, rejects_mr):
+        def react(new):
+            out = []
+            for raw in new:
+                if raw[0] == 1:
+                    rq = pdu.AAssociateRqPDU.decode(raw)
+                    items = [pdu.ApplicationContextItem(A.APP_CTX)]
+                    for it in rq.variable_items[1:-1]:
+                        name = str(it.abs_sub_item.name)
+                        rej = rejects_mr and name == MR
+                        items.append(pdu.PresentationContextItemAC(
+                            it.context_id, 3 if rej else 0, pdu.TransferSyntaxSubItem('' if rej else TS[ts_index])))
+                    items.append(A.user_info(8192 if ts_index else 4096))
+                    out.append(pdu.AAssociateAcPDU(rq.called_ae_title, rq.calling_ae_title, items).encode())
+                elif raw[0] == 4:
+                    p = pdu.PDataTfPDU.decode(raw)
+                    cid = p.data_value_items[0].context_id
+                    m = dm.CEchoRSPMessage()
+                    m.message_id_being_responded_to = 77 + ts_index
+                    m.sop_class_uid = VERIF
+                    m.status = 0
+                    m.set_length()
+                    out.append(b''.join(x.encode() for x in m.encode(cid, 16384)))
+                elif raw[0] == 5:
+                    out.append(pdu.AReleaseRpPDU().encode())
+            return out
+        return react
+
+    class Req(object):
+        def __init__(self, name, ts_index, rejects):
+            self.name, self.ts_index, self.rejects = name, ts_index, rejects
+            self.lr = None
+            self.out = []
+            self.step_no = 0
+            self.done = False
+
+        def step(self):
+            i = self.step_no
+            self.step_no += 1
+            if i == 0:
+                self.lr = L.LiveRequester(ae, {'aet': self.name, 'address': 'h', 'port': 104},
+                                          peer(self.ts_index, self.rejects))
+            elif i == 1:
+                self.lr.asce.request()
+            elif i == 2:
+                for sop in (CT, MR, VERIF):
+                    try:
+                        f = self.lr.asce.get_scu(sop)
+                        self.out.append(('scu', sop, f('x') if sop != VERIF else 'echo-service'))
+                    except exceptions.ClassNotSupportedError:
+                        self.out.append(('scu', sop, None))
+            elif i == 3:
+                rq = dm.CEchoRQMessage()
+                rq.message_id = 77 + self.ts_index
+                rq.sop_class_uid = VERIF
+                cid = [k for k, v in self.lr.asce.accepted_contexts.items() if str(v.sop_class) == VERIF][0]
+                self.lr.asce.send(rq, cid)
+                msg, got_cid = self.lr.asce.receive()
+                self.out.append(('echo', got_cid == cid, msg.message_id_being_responded_to))
+            else:
+                self.lr.asce.release()
+                self.done = True
+
+        def trace(self):
+            a = self.lr.asce
+            ctxs = sorted((k, str(v.sop_class), str(v.supported_ts)) for k, v in a.accepted_contexts.items())
+            scu = sorted((str(k), v[0], str(v[1])) for k, v in a.sop_classes_as_scu.items())
+            return (self.lr.wire(), ctxs, scu, a.max_pdu_length, self.out, self.lr.pump.err, self.lr.pump.state(),
+                    self.lr.sock.closed)
+    ra = Req('PEER_A', ta, False) if which in ('both', 'a') else None
+    rb = Req('PEER_B', tb, b_rejects) if which in ('both', 'b') else None
+    bit = 0
+    while not ((ra is None or ra.done) and (rb is None or rb.done)):
+        pick_b = (sched >> (bit % 8)) & 1
+        bit += 1
+        if ra is None or ra.done:
+            r = rb
+        elif rb is None or rb.done:
+            r = ra
+        else:
+            r = rb if pick_b else ra
+        r.step()
+    return (ra.trace() if ra else None), (rb.trace() if rb else None)
+
+
+@cond(bounds='REQUESTING several associations at once: two live requesters of one ClientAE (real AssociationRequester over '
+             'real stepped providers, scripted peers), both alive at the same time; peer A accepts everything with one '
+             'transfer syntax and maximum length, peer B with the other syntax and maximum and (symbolic) rejects one '
+             'class; steps (construct, request, look services up, C-ECHO, release) interleaved by an 8-bit schedule word '
+             '(symbolic over all 256 values); every association\'s proposal, usable contexts, service look-ups, negotiated '
+             'length and exchange equal what they are when it runs alone (quick tier: schedule words 0..63)',
+      family={'b_rejects': [0, 1], 'swap': [0, 1]}, timeout=300, thorough_timeout=900)
+def requesters_interleaved(sw: int) -> bool:
+    """
+    pre: 0 <= sw <= (255 if tier() == 'thorough' else 63)
+    post: _
+    """
+    from vt import sim
+    sched = pick(sw, 0, 255)
+    b_rejects, swap = bool(fam('b_rejects')), bool(fam('swap'))
+    ta, tb = (1, 0) if swap else (0, 1)
+    with sim._no_tracing():
+        alone_a, _ = _requester_run('a', 0, b_rejects, ta, tb)
+        _, alone_b = _requester_run('b', 0, b_rejects, ta, tb)
+        both_a, both_b = _requester_run('both', sched, b_rejects, ta, tb)
+        ok = both_a == alone_a and both_b == alone_b
+        # sanity of the alone runs: A can use all three classes, B all or all but MR; the echo came back
+        ok = ok and alone_a[5] is None and alone_b[5] is None and len(alone_a[1]) == 3 \
+            and len(alone_b[1]) == (2 if b_rejects else 3) and ('echo', True, 77 + ta) in alone_a[4]
+    deep(ok and sched == 0b00010101)
+    return ok
+
+
+
+# ------------------------------------------------------------------------------------------------
 # message ids under pre-emption: two REAL threads, the switch point inside _new_msg_id chosen by the solver
 # ------------------------------------------------------------------------------------------------
 
